@@ -34,7 +34,7 @@ def gen(rng):
     generic_const = '{C}' in self_tmpl and rng.random() < 0.3
     blocks = []
     for fi, cval in enumerate(consts):
-        groups = rng.sample(gp.GROUPS, 2)
+        groups = rng.sample(gp.GROUPS, rng.choice([2, 2, 3]))
         for g in groups:
             used = [s for s in ['L0', 'T0', 'T1'] if '{%s}' % s in self_tmpl]
             slots = gp.mk_slots(rng, used)
@@ -51,10 +51,11 @@ def gen(rng):
         if generic_const:
             break
     nested_self = None
+    nested2 = None
     if generic_const and rng.random() < 0.6:
         # a member for one concrete const argument nested under the family of the generic one
         used_groups = {bd[2].get('G') for b in blocks for bd in b.bounds}
-        free = [x for x in gp.GROUPS if x not in used_groups] or gp.GROUPS
+        free = [x for x in gp.GROUPS + ['GD'] if x not in used_groups]
         used = [s_ for s_ in ['L0', 'T0', 'T1'] if '{%s}' % s_ in self_tmpl]
         slots = gp.mk_slots(rng, used)
         order = list(slots); rng.shuffle(order)
@@ -63,11 +64,20 @@ def gen(rng):
     if sk == 'w4' and rng.random() < 0.6:
         # a nested member: a more specific self type re-expressing the family's key
         used_groups = {bd[2].get('G') for b in blocks for bd in b.bounds}
-        free = [x for x in gp.GROUPS if x not in used_groups] or gp.GROUPS
+        free = [x for x in gp.GROUPS + ['GD'] if x not in used_groups]
         slots = gp.mk_slots(rng, ['T0', 'T1'])
         order = list(slots); rng.shuffle(order)
         nested_self = 'Wr<Vec<{T0}>, {T1}>'
         blocks.append(gp.Block({x: slots[x] for x in order}, None, nested_self, [('Vec<{T0}>', tr, {'G': free[0]}, 'where')], 'bn'))
+        if len(free) > 1 and rng.random() < 0.6:
+            # a second nested member (same or another more specific header)
+            slots2 = gp.mk_slots(rng, ['T0', 'T1'])
+            self2 = rng.choice([nested_self, 'Wr<Option<{T0}>, {T1}>'])
+            key2 = self2[3:].split(',')[0]
+            blocks.append(gp.Block(slots2, None, self2, [(key2, tr, {'G': free[1]}, 'where')], 'bm'))
+            nested2 = self2
+        else:
+            nested2 = None
     rng.shuffle(blocks)
     for i, b in enumerate(blocks):
         b.tag = 'b%d' % i
@@ -85,12 +95,15 @@ def gen(rng):
     c.probes = probes[:8]
     if nested_self:
         c.probes = c.probes[:6] + [nested_self.format(T0=a, T1=b2) for a in atoms[:2] for b2 in atoms[:1]]
+        if sk == 'w4' and nested2 and nested2 != nested_self:
+            c.probes += [nested2.format(T0=a, T1=atoms[0]) for a in atoms[:2]]
     world = {}
     for a in atoms:
         world[(a, tr)] = {x: rng.choice(gp.GROUPS) for x in gp.TRAITS[tr]} if rng.random() < 0.85 else None
         world[(a, 'D')] = world.get((a, 'D')) or ({'G': rng.choice(gp.GROUPS)} if rng.random() < 0.8 else None)
         if nested_self:
-            world[('Vec<%s>' % a, tr)] = {x: rng.choice(gp.GROUPS) for x in gp.TRAITS[tr]} if rng.random() < 0.9 else None
+            world[('Vec<%s>' % a, tr)] = {x: rng.choice(gp.GROUPS + ['GD']) for x in gp.TRAITS[tr]} if rng.random() < 0.9 else None
+            world[('Option<%s>' % a, tr)] = {x: rng.choice(gp.GROUPS + ['GD']) for x in gp.TRAITS[tr]} if rng.random() < 0.9 else None
     c.world = world
     return c
 
